@@ -29,6 +29,8 @@ def run(ctx):
         ctx.violation("C06/spec-watcher", f"Watcher6 violates {r.violated}", {"tlc": r.trace})
     r = vlib.tlc_expect_violation("Watcher6", "Watcher6_neg.cfg", workers=2)
     ctx.add_tlc("negative control: id bumped before the swap (must fail NewAfterReport)", r, negative=True)
+    r = vlib.tlc_expect_violation("Watcher6", "Watcher6_twoloads.cfg", "ToldIffWrites", workers=2)
+    ctx.add_tlc("negative control: reloaded() answers from one load of the id and remembers a second one (a rewrite in between is never reported)", r, negative=True)
     sim = 2500 if thorough else 350
     suite = [("W3", 4, None, 6000), ("W3", 7, sim, None), ("W4", 5, None, 5000), ("W4", 7, sim, None), ("W4r", 7, None, 6000, "KeepTwoPasses"), ("W6", 6, sim, None),
              ("W5", 6, sim // 2, None), ("W9", 5, sim // 2, None)]
@@ -51,6 +53,9 @@ def run(ctx):
         verdict, tr, detail = vlib.trace_check("Trace_RwGuard", f"Trace_RwGuard_{mode}.cfg", out, name=f"c06-poll-{mode}")
         if verdict == "error":
             raise vlib.ToolError(f"trace validation failed to run: {detail}")
+        if rep.get("missed_reports", 0) > 0:
+            ctx.violation(f"C06/watcher-missed:{mode}", f"{rep['missed_reports']} polls of a ReloadWatcher answered false although the asset had been rewritten since its last true "
+                          f"({rep.get('watcher_polls')} polls by 3 threads against {rep.get('writes')} rewrites)", dict(mode=mode))
         if verdict != "accepted" or rep["torn"]:
             keep = out + ".rejected"
             os.replace(out, keep)
